@@ -33,6 +33,16 @@ Proof.
   intros Q. unfold rv. rewrite lt_emit. unfold loud. rewrite Q. cbn [negb]. rewrite app_nil_r. reflexivity.
 Qed.
 
+(** Dropping updates of fields outside the view, without unfolding the state
+    they are applied to. *)
+Ltac rv_norm :=
+  repeat match goal with
+  | |- context [rv (set ?p ?f ?x)] =>
+      let H := fresh in
+      assert (H : forall y, rv (set p f y) = rv y) by (intro; reflexivity);
+      rewrite (H x); clear H
+  end.
+
 Lemma rv_set_state st s : rv (set_state st s) = rv s.
 Proof. unfold set_state. destruct (state s =? st); [reflexivity|]. rewrite rv_emit by reflexivity. reflexivity. Qed.
 Lemma rv_ka_reset s : rv (ka_reset s) = rv s. Proof. reflexivity. Qed.
@@ -59,7 +69,7 @@ Proof. unfold check_sess_term. destruct (_ && _); [apply rv_do_close|reflexivity
 Lemma rv_send_contact_header s : rv (send_contact_header s) = rv s.
 Proof. unfold send_contact_header. exact (rv_send_frame _ _). Qed.
 Lemma rv_send_sess_init s : rv (send_sess_init s) = rv s.
-Proof. unfold send_sess_init. cbv zeta. etransitivity; [|apply (rv_send_msg (MSessInit (si_keepalive (my_sessinit s)) (si_seg_mru (my_sessinit s)) (si_xfer_mru (my_sessinit s)) (si_nodeid (my_sessinit s)) []) s)]. reflexivity. Qed.
+Proof. unfold send_sess_init. cbv zeta. rv_norm. apply rv_send_msg. Qed.
 Lemma rv_send_sess_term r b s : rv (fst (send_sess_term r b s)) = rv s.
 Proof.
   unfold send_sess_term. destruct (negb (in_sess s)); [reflexivity|]. destruct (in_term s); [reflexivity|].
@@ -72,9 +82,9 @@ Proof.
   unfold send_next. destruct (tx_tmp s) as [[id data]|]; [|reflexivity].
   cbv zeta. destruct (_ && _); [reflexivity|].
   match goal with |- context [if ?c then _ else _] => destruct c end.
-  - rewrite rv_pq_trigger. etransitivity; [|apply (rv_send_msg _ _)]. Time reflexivity.
-  - rewrite rv_send_msg. reflexivity.
-Time Qed.
+  - rewrite rv_pq_trigger. rv_norm. rewrite rv_send_msg. rv_norm. reflexivity.
+  - rewrite rv_send_msg. rv_norm. reflexivity.
+Qed.
 
 Lemma rv_process_queue s : rv (fst (process_queue s)) = rv s.
 Proof.
@@ -83,7 +93,7 @@ Proof.
   - cbn [fst]. rewrite rv_send_next. reflexivity.
   - destruct (negb (in_sess s)); [reflexivity|]. destruct (in_term s); [reflexivity|].
     destruct (pend_start s) as [|[id data] rest]; [reflexivity|].
-    cbn [fst]. rewrite rv_send_next, rv_emit by reflexivity. reflexivity.
+    cbn [fst]. rewrite rv_send_next, rv_emit by reflexivity. rv_norm. reflexivity.
 Qed.
 
 Lemma rv_merge_session_params s : rv (fst (merge_session_params s)) = rv s.
@@ -94,8 +104,8 @@ Proof.
   destruct (negb (ascii (si_nodeid peer))); reflexivity.
 Qed.
 
-Lemma rv_flush_fold l : forall s0,
-  rv (fold_left (fun s it =>
+Lemma rv_flush_fold (l : list (N * bytes)) : forall s0,
+  rv (fold_left (fun s (it : N * bytes) =>
                emit (ESig SigSendFinished [PStrNum (fst it); PInt 0; PStr RES_TERMINATING])
                     (s <| tx_map := dict_del (fst it) (tx_map s) |>)) l s0) = rv s0.
 Proof.
@@ -112,10 +122,669 @@ Proof.
   match goal with |- context [if ?c then ?x else ?y] =>
     assert (H : rv (fst (if c then x else y)) = rv s) end.
   { destruct (_ <? CHUNK); cbn [fst]; [|reflexivity].
-    etransitivity; [|apply (rv_sbd (N.of_nat (length (skipn chunk_nat (msg_tx s)))) (s <| msg_tx := skipn chunk_nat (msg_tx s) |>))].
-    reflexivity. }
+    rv_norm. rewrite rv_sbd. rv_norm. reflexivity. }
   match goal with |- context [if ?c then ?x else ?y] => destruct (if c then x else y) as [s1 ue] end.
   cbn [fst] in H. destruct (is_nil (conn_tx s1)); [exact H|].
   cbv zeta. destruct (_ =? 0); cbn [fst]; [rewrite rv_do_close; exact H|].
-  rewrite <- H. reflexivity.
+  rv_norm. exact H.
 Qed.
+
+(** ** Operations other than a socket read or a pop leave the view alone *)
+Definition rx_op (o : op) : bool :=
+  match o with ORx _ | OPop _ => true | _ => false end.
+
+Lemma rv_step_other s o : rx_op o = false -> rv (step s o) = rv s.
+Proof.
+  intros Ho. destruct o; try discriminate Ho; unfold step.
+  - (* OStart *)
+    destruct (closed s); [reflexivity|].
+    destruct (negb (state s =? ST_CONNECTING)); [reflexivity|].
+    cbv zeta. rewrite rv_set_state.
+    destruct (c_passive (cf s)); [reflexivity|]. rv_norm. apply rv_send_contact_header.
+  - (* OSend *)
+    destruct (closed s); [reflexivity|]. cbv zeta.
+    rewrite rv_emit by reflexivity. rewrite rv_pq_trigger. rv_norm. reflexivity.
+  - (* OTerm *)
+    destruct (closed s); [reflexivity|].
+    destruct (negb (in_sess s)); [apply rv_do_close|].
+    rewrite rv_escape. apply rv_send_sess_term.
+  - (* OClose *)
+    destruct (closed s); [reflexivity|]. apply rv_do_close.
+  - (* OTxPump *)
+    destruct (closed s); [reflexivity|].
+    match goal with |- context [if ?c then _ else _] => destruct c end; [|reflexivity].
+    cbv zeta.
+    pose proof (rv_tx_proxy accept (s <| pend_set := false |>)) as H.
+    destruct (tx_proxy accept (s <| pend_set := false |>)) as [s1 cont]. cbn [fst] in H.
+    assert (H' : rv s1 = rv s) by (rewrite H; rv_norm; reflexivity).
+    destruct cont; [exact H'|]. destruct idle; rv_norm; exact H'.
+  - (* ORxEof *)
+    destruct (closed s); [reflexivity|]. destruct (rx_alive s); [apply rv_do_close|reflexivity].
+  - (* OPQ *)
+    destruct (closed s); [reflexivity|].
+    match goal with |- context [if ?c then _ else _] => destruct c end; [|reflexivity].
+    pose proof (rv_process_queue s) as H.
+    destruct (process_queue s) as [s1 keep]. cbn [fst] in H.
+    destruct keep; rv_norm; exact H.
+  - (* OFireKa *)
+    destruct (closed s); [reflexivity|].
+    destruct (ka_due s) as [due|]; [|reflexivity].
+    destruct (due <=? now s); [|reflexivity]. rewrite rv_send_msg. rv_norm. reflexivity.
+  - (* OFireIdle *)
+    destruct (closed s); [reflexivity|].
+    destruct (idle_due s) as [due|]; [|reflexivity].
+    destruct (due <=? now s); [|reflexivity]. cbv zeta. cbn [in_term set].
+    destruct (in_term s).
+    + rewrite rv_do_close. rv_norm. reflexivity.
+    + rewrite rv_escape, rv_send_sess_term. rv_norm. reflexivity.
+  - (* OAdvance *) rv_norm. reflexivity.
+Qed.
+
+(** ** The view after handling one frame *)
+Definition view := (bool * option (N * bytes) * list frame * list (N * bytes) * list event)%type.
+Definition v_sess (v : view) := fst (fst (fst (fst v))).
+Definition v_tmp (v : view) := snd (fst (fst (fst v))).
+Definition v_hd (v : view) := snd (fst (fst v)).
+Definition v_map (v : view) := snd (fst v).
+Definition v_lt (v : view) := snd v.
+
+Lemma rv_eta s : rv s = (v_sess (rv s), v_tmp (rv s), v_hd (rv s), v_map (rv s), v_lt (rv s)).
+Proof. reflexivity. Qed.
+Lemma rv_upd_rx_tmp v s : rv (s <| rx_tmp := v |>) = (v_sess (rv s), v, v_hd (rv s), v_map (rv s), v_lt (rv s)).
+Proof. reflexivity. Qed.
+Lemma rv_upd_rx_map v s : rv (s <| rx_map := v |>) = (v_sess (rv s), v_tmp (rv s), v_hd (rv s), v, v_lt (rv s)).
+Proof. reflexivity. Qed.
+Lemma rv_upd_in_sess v s : rv (s <| in_sess := v |>) = (v, v_tmp (rv s), v_hd (rv s), v_map (rv s), v_lt (rv s)).
+Proof. reflexivity. Qed.
+Lemma rv_upd_handled v s : rv (s <| handled := v |>) = (v_sess (rv s), v_tmp (rv s), v, v_map (rv s), v_lt (rv s)).
+Proof. reflexivity. Qed.
+Lemma rv_emit_loud e s : loud e = true ->
+  rv (emit e s) = (v_sess (rv s), v_tmp (rv s), v_hd (rv s), v_map (rv s), v_lt (rv s) ++ [e]).
+Proof. intros L. unfold rv at 1. rewrite lt_emit, L. reflexivity. Qed.
+Lemma rx_map_rv s : rx_map s = v_map (rv s). Proof. reflexivity. Qed.
+Lemma rx_tmp_rv s : rx_tmp s = v_tmp (rv s). Proof. reflexivity. Qed.
+Lemma in_sess_rv s : in_sess s = v_sess (rv s). Proof. reflexivity. Qed.
+
+Ltac rv_push :=
+  repeat first
+    [ rewrite rv_check_sess_term | rewrite rv_send_msg | rewrite rv_upd_rx_tmp | rewrite rv_upd_rx_map
+    | rewrite rv_emit by reflexivity | rewrite rv_emit_loud by reflexivity
+    | progress cbn [v_sess v_tmp v_hd v_map v_lt fst snd] ].
+
+Lemma rv_handle_seg fl xid ext data s :
+  rv (fst (handle_msg (MXferSeg fl xid ext data) s)) =
+  if in_sess s then
+    match rx_accept (rx_tmp s) fl xid with
+    | None => rv s
+    | Some acc =>
+      if has_end fl then
+        (in_sess s, None, handled s, dict_set xid (acc ++ data) (rx_map s),
+         lt s ++ [ESig SigRecvFinished [PStrNum xid; PInt (N.of_nat (length (acc ++ data))); PStr RES_SUCCESS]])
+      else (in_sess s, Some (xid, acc ++ data), handled s, rx_map s, lt s)
+    end
+  else rv s.
+Proof.
+  unfold handle_msg. destruct (in_sess s) eqn:IS; cbn [negb]; [|reflexivity].
+  unfold rx_accept. destruct (has_start fl).
+  - cbv zeta. cbn [rx_tmp set emit].
+    destruct (has_end fl); cbn [fst].
+    + rewrite (rx_map_rv (send_msg _ _)). rv_push. unfold rv; cbn [fst snd]. rewrite IS. reflexivity.
+    + rv_push.  unfold rv; cbn [fst snd]. rewrite IS. reflexivity.
+  - destruct (rx_tmp s) as [[c acc0]|] eqn:RT; [|reflexivity].
+    destruct (c =? xid) eqn:Ec; [|reflexivity].
+    cbv zeta. rewrite RT.
+    destruct (has_end fl); cbn [fst].
+    + rewrite (rx_map_rv (send_msg _ _)). rv_push. unfold rv; cbn [fst snd]. rewrite IS. reflexivity.
+    + rv_push.  unfold rv; cbn [fst snd]. rewrite IS. reflexivity.
+Qed.
+
+Lemma rv_handle_init ka smru xmru nid ext s :
+  rv (fst (handle_msg (MSessInit ka smru xmru nid ext) s)) = (true, rx_tmp s, handled s, rx_map s, lt s).
+Proof.
+  unfold handle_msg. cbv zeta.
+  match goal with |- context [merge_session_params ?x] =>
+    pose proof (rv_merge_session_params x) as H; destruct (merge_session_params x) as [s1 [k|]] end;
+  cbn [fst] in *; rewrite ?rv_set_state, H; rewrite rv_upd_in_sess; rv_norm;
+  (destruct (c_passive (cf s)); [rewrite rv_send_sess_init|]; reflexivity).
+Qed.
+
+Lemma rv_handle_term fl r s : rv (fst (handle_msg (MSessTerm fl r) s)) = rv s.
+Proof.
+  unfold handle_msg. destruct (negb (in_sess s)); [reflexivity|].
+  destruct (in_term s).
+  - cbn [fst]. rewrite rv_check_sess_term, rv_flush_pend_start. reflexivity.
+  - pose proof (rv_send_sess_term r true s) as H.
+    destruct (send_sess_term r true s) as [s1 [k|]]; cbn [fst] in *; [exact H|].
+    rewrite rv_check_sess_term, rv_flush_pend_start. exact H.
+Qed.
+
+Lemma rv_handle_ack fl xid len s : rv (fst (handle_msg (MXferAck fl xid len) s)) = rv s.
+Proof.
+  unfold handle_msg. destruct (negb (in_sess s)); [reflexivity|].
+  destruct (dict_get xid (tx_map s)); [|reflexivity]. cbv zeta.
+  destruct (has_end fl).
+  - cbn [pend_ack set]. destruct (negb (mem_N xid (pend_ack s))); cbn [fst]; [reflexivity|].
+    rewrite rv_check_sess_term. rv_norm. rewrite rv_emit by reflexivity. rv_norm. reflexivity.
+  - cbn [fst]. rewrite rv_emit by reflexivity. rv_norm. reflexivity.
+Qed.
+
+Lemma rv_handle_refuse r xid s : rv (fst (handle_msg (MXferRefuse r xid) s)) = rv s.
+Proof.
+  unfold handle_msg. destruct (negb (in_sess s)); [reflexivity|].
+  destruct (dict_get xid (tx_map s)) as [ack|]; [|reflexivity]. cbv zeta. cbn [fst].
+  rewrite rv_check_sess_term.
+  match goal with |- rv (match tx_tmp ?x with _ => _ end) = _ =>
+    assert (H : rv x = rv s) by (rv_norm; rewrite rv_emit by reflexivity; rv_norm; reflexivity);
+    generalize dependent x end.
+  intros x H. destruct (tx_tmp x) as [[cur d]|]; [|exact H].
+  destruct (cur =? xid); [|exact H]. rewrite rv_pq_trigger. rv_norm. exact H.
+Qed.
+
+Lemma rv_recv_frame_msg m s : rv (fst (recv_frame (FMsg m) s)) = rv (fst (handle_msg m s)).
+Proof.
+  unfold recv_frame. destruct (handle_msg m s) as [s1 [|r|k]]; cbn [fst ok raise]; [reflexivity| |reflexivity].
+  apply rv_send_msg.
+Qed.
+
+Lemma rv_recv_frame_contact c s : rv (fst (recv_frame (FContact c) s)) = rv s.
+Proof.
+  unfold recv_frame.
+  destruct (negb (bytes_eqb (ch_magic c) MAGIC)); [apply rv_do_close|].
+  destruct (negb (ch_version c =? 4)); [apply rv_do_close|].
+  cbv zeta.
+  match goal with |- context [conhead_this ?x] => assert (H : rv x = rv s);
+    [|generalize dependent x] end.
+  { destruct (c_passive (cf s)); [|reflexivity]. rv_norm. apply rv_send_contact_header. }
+  intros x H. destruct (conhead_this x); [|exact H].
+  match goal with |- context [set_state ST_SESSNEG ?y] =>
+    assert (H2 : rv (set_state ST_SESSNEG y) = rv s) by (rewrite rv_set_state; rv_norm; exact H);
+    generalize dependent (set_state ST_SESSNEG y) end.
+  intros z H2. destruct (c_require_tls (cf z)) as [[|]|]; cbn [fst ok]; rewrite ?rv_do_close; try exact H2;
+    (destruct (c_passive (cf z)); cbn [fst ok]; rewrite ?rv_send_sess_init; exact H2).
+Qed.
+
+(** ** Dictionaries *)
+Lemma dict_get_set {V} k k' (v : V) d :
+  dict_get k (dict_set k' v d) = if k' =? k then Some v else dict_get k d.
+Proof.
+  induction d as [|[a b] d IH]; cbn [dict_set dict_get].
+  - destruct (k' =? k); reflexivity.
+  - destruct (a =? k') eqn:E1; cbn [dict_get].
+    + apply N.eqb_eq in E1. subst a. destruct (N.eqb k' k); reflexivity.
+    + rewrite IH. destruct (a =? k) eqn:E2; [|reflexivity].
+      apply N.eqb_eq in E2. subst a. rewrite N.eqb_sym, E1. reflexivity.
+Qed.
+
+Lemma dict_get_in {V} k (v : V) d : dict_get k d = Some v -> In (k, v) d.
+Proof.
+  induction d as [|[a b] d IH]; cbn [dict_get]; [discriminate|].
+  destruct (a =? k) eqn:E.
+  - intros [= ->]. apply N.eqb_eq in E. subst. left. reflexivity.
+  - intros H. right. apply IH, H.
+Qed.
+
+Lemma dict_get_none_keys {V} k (d : list (N * V)) : dict_get k d = None <-> ~ In k (map fst d).
+Proof.
+  induction d as [|[a b] d IH]; cbn [dict_get map fst In]; [tauto|].
+  destruct (a =? k) eqn:E.
+  - apply N.eqb_eq in E. split; [discriminate|]. intros H. exfalso. apply H. left. exact E.
+  - apply N.eqb_neq in E. rewrite IH. tauto.
+Qed.
+
+Lemma dict_set_keys {V} k (v : V) d :
+  map fst (dict_set k v d) = if existsb (N.eqb k) (map fst d) then map fst d else map fst d ++ [k].
+Proof.
+  induction d as [|[a b] d IH]; cbn [dict_set map fst existsb app]; [reflexivity|].
+  rewrite (N.eqb_sym k a). destruct (a =? k) eqn:E; cbn [map fst orb].
+  - apply N.eqb_eq in E. subst. reflexivity.
+  - rewrite IH. destruct (existsb _ _); reflexivity.
+Qed.
+
+Lemma NoDup_snoc {A} (l : list A) x : NoDup l -> ~ In x l -> NoDup (l ++ [x]).
+Proof.
+  induction l as [|a l IH]; cbn [app]; intros H Hx.
+  - constructor; [intros []|constructor].
+  - inversion H as [|? ? Ha Hl]; subst. constructor.
+    + rewrite in_app_iff. cbn [In]. intros [H1|[H1|[]]]; [exact (Ha H1)|]. apply Hx. left. symmetry. exact H1.
+    + apply IH; [exact Hl|]. intros H1. apply Hx. right. exact H1.
+Qed.
+
+Lemma dict_set_nodup {V} k (v : V) d : NoDup (map fst d) -> NoDup (map fst (dict_set k v d)).
+Proof.
+  intros H. rewrite dict_set_keys. destruct (existsb (N.eqb k) (map fst d)) eqn:E; [exact H|].
+  apply NoDup_snoc; [exact H|].
+  intros Hin. assert (existsb (N.eqb k) (map fst d) = true); [|congruence].
+  apply existsb_exists. exists k. split; [exact Hin|apply N.eqb_refl].
+Qed.
+
+Lemma dict_del_keys_incl {V} k (d : list (N * V)) x : In x (map fst (dict_del k d)) -> In x (map fst d).
+Proof.
+  induction d as [|[a b] d IH]; cbn [dict_del map fst In]; [tauto|].
+  destruct (a =? k); cbn [map fst In]; [tauto|]. intros [H|H]; [left; exact H|right; apply IH, H].
+Qed.
+
+Lemma dict_del_nodup {V} k (d : list (N * V)) : NoDup (map fst d) -> NoDup (map fst (dict_del k d)).
+Proof.
+  induction d as [|[a b] d IH]; cbn [dict_del map fst]; intros H; [exact H|].
+  inversion H as [|? ? Ha Hd]; subst.
+  destruct (a =? k); cbn [map fst]; [exact Hd|].
+  constructor; [|apply IH, Hd]. intros Hin. apply Ha. eapply dict_del_keys_incl, Hin.
+Qed.
+
+Lemma dict_get_del {V} k k' (d : list (N * V)) : NoDup (map fst d) ->
+  dict_get k (dict_del k' d) = if N.eqb k' k then None else dict_get k d.
+Proof.
+  induction d as [|[a b] d IH]; cbn [dict_del dict_get map fst]; intros H.
+  - destruct (N.eqb k' k); reflexivity.
+  - inversion H as [|? ? Ha Hd]; subst.
+    destruct (a =? k') eqn:E1.
+    + apply N.eqb_eq in E1. subst a. destruct (N.eqb k' k) eqn:E2; [|reflexivity].
+      apply N.eqb_eq in E2. subst k'. apply dict_get_none_keys. exact Ha.
+    + cbn [dict_get]. rewrite (IH Hd). destruct (a =? k) eqn:E2; [|reflexivity].
+      apply N.eqb_eq in E2. subst a. rewrite N.eqb_sym, E1. reflexivity.
+Qed.
+
+(** ** The specification fold *)
+Lemma rx_spec_snoc h f : rx_spec (h ++ [f]) = rx_spec_step (rx_spec h) f.
+Proof. unfold rx_spec. rewrite fold_left_app. reflexivity. Qed.
+
+
+
+(** Number of "receive finished" signals. *)
+Definition is_rf (e : event) : bool := match e with ESig SigRecvFinished _ => true | _ => false end.
+Definition nrf (l : list event) : nat := length (filter is_rf l).
+
+Lemma rxmap_fold_fst dl l : forall st, fst (fold_left (rxmap_step dl) l st) = (fst st + nrf l)%nat.
+Proof.
+  induction l as [|e l IH]; intros st; cbn [fold_left].
+  - unfold nrf. cbn. lia.
+  - rewrite IH. unfold nrf. cbn [filter].
+    destruct e as [sg args| | | |]; try destruct sg; cbn [rxmap_step is_rf length fst]; try lia.
+    destruct (nth_error dl (fst st)) as [[i d]|]; cbn [fst]; lia.
+Qed.
+
+Lemma rxmap_fold_ext dl x l : forall st, (fst st + nrf l <= length dl)%nat ->
+  fold_left (rxmap_step (dl ++ x)) l st = fold_left (rxmap_step dl) l st.
+Proof.
+  induction l as [|e l IH]; intros st Hst; cbn [fold_left]; [reflexivity|].
+  assert (E : rxmap_step (dl ++ x) st e = rxmap_step dl st e).
+  { destruct e as [sg args| | | |]; try destruct sg; cbn [rxmap_step]; try reflexivity.
+    rewrite nth_error_app1; [reflexivity|]. unfold nrf in Hst. cbn [filter is_rf length] in Hst. lia. }
+  rewrite E. apply IH.
+  unfold nrf in *. cbn [filter] in Hst.
+  destruct e as [sg args| | | |]; try destruct sg; cbn [rxmap_step is_rf length fst] in *; try lia.
+  destruct (nth_error dl (fst st)) as [[i d]|]; cbn [fst]; lia.
+Qed.
+
+(** ** The invariant, over the view *)
+Definition RinvS (st : rxspec) (v : view) : Prop :=
+  v_sess v = sp_sess st /\ v_tmp v = sp_cur st /\
+  recv_finished_events (v_lt v) = map dlen (sp_out st) /\
+  (forall id d, In (id, d) (pop_events (v_lt v)) -> In (id, d) (sp_out st)) /\
+  fold_left (rxmap_step (sp_out st)) (v_lt v) (O, []) = (length (sp_out st), v_map v) /\
+  (forall id d, dict_get id (v_map v) = Some d -> In (id, d) (sp_out st)) /\
+  NoDup (map fst (v_map v)).
+
+Definition Rinv (s : ep) : Prop := RinvS (rx_spec (handled s)) (rv s).
+
+Lemma RinvS_hd st a b c d e c' : RinvS st (a, b, c, d, e) -> RinvS st (a, b, c', d, e).
+Proof. exact (fun H => H). Qed.
+
+Lemma rx_step_other st f : seg_of_frame f = [] -> is_sess_init f = false -> rx_spec_step st f = st.
+Proof.
+  destruct st as [[sess cur] out]. destruct f as [c|m]; [reflexivity|].
+  destruct m; cbn; try reflexivity; discriminate.
+Qed.
+
+Lemma RinvS_deliver sess cur out v xid d :
+  RinvS (sess, cur, out) v ->
+  RinvS (sess, None, out ++ [(xid, d)])
+        (v_sess v, None, v_hd v, dict_set xid d (v_map v),
+         v_lt v ++ [ESig SigRecvFinished [PStrNum xid; PInt (N.of_nat (length d)); PStr RES_SUCCESS]]).
+Proof.
+  intros (H1 & H2 & H3 & H4 & H5 & H6 & H7).
+  unfold RinvS, sp_sess, sp_cur, sp_out in *. cbn [fst snd v_sess v_tmp v_hd v_map v_lt] in *.
+  repeat split.
+  - exact H1.
+  - unfold recv_finished_events in *. rewrite flat_map_app, H3, map_app. reflexivity.
+  - intros id d'. unfold pop_events. rewrite flat_map_app. cbn [flat_map]. rewrite app_nil_r.
+    intros Hin. apply in_or_app. left. apply H4, Hin.
+  - rewrite fold_left_app.
+    assert (Hn : nrf (v_lt v) = length out).
+    { pose proof (rxmap_fold_fst out (v_lt v) (O, [])) as F. rewrite H5 in F. cbn [fst] in F. lia. }
+    rewrite (rxmap_fold_ext out [(xid, d)] (v_lt v) (O, [])) by (cbn [fst]; lia). rewrite H5.
+    cbn [fold_left rxmap_step fst snd]. rewrite nth_error_app2 by lia. rewrite Nat.sub_diag. cbn [nth_error].
+    rewrite app_length. cbn [length]. f_equal. lia.
+  - intros id d'. rewrite dict_get_set. destruct (xid =? id) eqn:E.
+    + intros [= <-]. apply N.eqb_eq in E. subst. apply in_or_app. right. left. reflexivity.
+    + intros Hg. apply in_or_app. left. apply H6, Hg.
+  - apply dict_set_nodup, H7.
+Qed.
+
+Lemma RinvS_pop st v id d :
+  RinvS st v -> dict_get id (v_map v) = Some d ->
+  RinvS st (v_sess v, v_tmp v, v_hd v, dict_del id (v_map v), v_lt v ++ [EPop id d]).
+Proof.
+  intros (H1 & H2 & H3 & H4 & H5 & H6 & H7) Hg.
+  unfold RinvS in *. cbn [fst snd v_sess v_tmp v_hd v_map v_lt] in *.
+  repeat split.
+  - exact H1.
+  - exact H2.
+  - unfold recv_finished_events in *. rewrite flat_map_app. cbn [flat_map]. rewrite !app_nil_r. exact H3.
+  - intros i d'. unfold pop_events. rewrite flat_map_app. cbn [flat_map]. rewrite app_nil_r.
+    intros Hin. apply in_app_or in Hin. destruct Hin as [Hin|[Hin|[]]]; [apply H4, Hin|].
+    injection Hin as <- <-. apply H6, Hg.
+  - rewrite fold_left_app, H5. reflexivity.
+  - intros i d'. rewrite dict_get_del by exact H7. destruct (N.eqb id i); [discriminate|]. apply H6.
+  - apply dict_del_nodup, H7.
+Qed.
+
+(** ** One frame *)
+Lemma recv_frame_R fr s st :
+  RinvS st (rv s) ->
+  RinvS (rx_spec_step st fr) (rv (fst (recv_frame fr s)))
+  /\ handled (fst (recv_frame fr s)) = handled s.
+Proof.
+  intros HR. destruct fr as [c|m].
+  - rewrite rx_step_other by reflexivity. rewrite rv_recv_frame_contact. split; [exact HR|].
+    change (v_hd (rv (fst (recv_frame (FContact c) s))) = handled s). rewrite rv_recv_frame_contact. reflexivity.
+  - change (handled (fst (recv_frame (FMsg m) s))) with (v_hd (rv (fst (recv_frame (FMsg m) s)))).
+    rewrite rv_recv_frame_msg.
+    destruct m as [fl xid ext data|fl xid len|r xid| |fl r|ri r|ka smru xmru nid ext].
+    + (* XFER_SEGMENT *)
+      rewrite rv_handle_seg. destruct st as [[sess cur] out].
+      destruct HR as (H1 & H2 & HR'). pose proof (conj H1 (conj H2 HR')) as HR.
+      change (in_sess s = sess) in H1. change (rx_tmp s = cur) in H2.
+      cbn [rx_spec_step]. rewrite H1, H2. destruct sess; [|split; [exact HR|reflexivity]].
+      destruct (rx_accept cur fl xid) as [acc|]; [|split; [exact HR|reflexivity]].
+      destruct (has_end fl).
+      * split; [|reflexivity]. apply (RinvS_deliver _ _ _ _ xid (acc ++ data)) in HR.
+        change (v_sess (rv s)) with (in_sess s) in HR. rewrite H1 in HR. exact HR.
+      * split; [|reflexivity]. destruct HR' as (H3 & H4 & H5 & H6 & H7).
+        unfold RinvS. cbn [v_sess v_tmp v_hd v_map v_lt sp_sess sp_cur sp_out fst snd].
+        repeat split; assumption.
+    + rewrite rx_step_other by reflexivity. rewrite rv_handle_ack. split; [exact HR|reflexivity].
+    + rewrite rx_step_other by reflexivity. rewrite rv_handle_refuse. split; [exact HR|reflexivity].
+    + rewrite rx_step_other by reflexivity. split; [exact HR|reflexivity].
+    + rewrite rx_step_other by reflexivity. rewrite rv_handle_term. split; [exact HR|reflexivity].
+    + rewrite rx_step_other by reflexivity. split; [exact HR|reflexivity].
+    + rewrite rv_handle_init. split; [|reflexivity]. destruct st as [[sess cur] out].
+      destruct HR as (H1 & H2 & HR'). cbn [rx_spec_step]. split; [reflexivity|]. split; [exact H2|exact HR'].
+Qed.
+
+Lemma recv_loop_R fuel : forall s, Rinv s -> Rinv (fst (recv_loop fuel s)).
+Proof.
+  induction fuel as [|fuel IH]; intros s HR; cbn [recv_loop]; [exact HR|].
+  destruct (is_nil (rx_buf s) || closed s); [exact HR|].
+  destruct (parse_frame (in_conn s) (rx_buf s)) as [[fr rest]|]; [|exact HR].
+  set (s1 := s <| rx_buf := rest |> <| handled := handled s ++ [fr] |>).
+  assert (H1 : RinvS (rx_spec (handled s)) (rv s1)) by exact HR.
+  destruct (recv_frame_R fr s1 _ H1) as [H2 H3].
+  rewrite <- rx_spec_snoc in H2.
+  assert (H4 : Rinv (fst (recv_frame fr s1))).
+  { unfold Rinv. rewrite H3. exact H2. }
+  destruct (recv_frame fr s1) as [s2 [k|]]; cbn [fst] in *; [exact H4|]. apply IH, H4.
+Qed.
+
+Lemma Rinv_rv s s' : rv s' = rv s -> Rinv s -> Rinv s'.
+Proof.
+  intros E H. unfold Rinv. rewrite E.
+  replace (handled s') with (handled s); [exact H|].
+  change (v_hd (rv s) = v_hd (rv s')). rewrite E. reflexivity.
+Qed.
+
+Lemma Rinv_step s o : Rinv s -> Rinv (step s o).
+Proof.
+  intros HR. destruct (rx_op o) eqn:Eo; [|apply (Rinv_rv s); [apply rv_step_other, Eo|exact HR]].
+  destruct o; try discriminate Eo; unfold step.
+  - (* OPop *)
+    destruct (closed s); [exact HR|].
+    destruct (dict_get id (rx_map s)) as [data|] eqn:G.
+    + unfold Rinv. rewrite rv_emit_loud by reflexivity. rewrite rv_upd_rx_map.
+      cbn [v_sess v_tmp v_hd v_map v_lt fst snd].
+      change (handled (emit _ _)) with (handled s).
+      apply (RinvS_pop _ (rv s) id data HR G).
+    + apply (Rinv_rv s); [apply rv_emit; reflexivity|exact HR].
+  - (* ORx *)
+    destruct (closed s); [exact HR|].
+    destruct (is_nil data || negb (rx_alive s)); [exact HR|].
+    assert (H : Rinv (fst (recv_raw data s))).
+    { unfold recv_raw. cbv zeta. apply recv_loop_R.
+      apply (Rinv_rv s); [|exact HR]. rv_norm. rewrite rv_idle_reset. rv_norm. reflexivity. }
+    destruct (recv_raw data s) as [s1 [k|]]; cbn [fst] in H; [|exact H].
+    apply (Rinv_rv s1); [|exact H]. rewrite rv_emit by reflexivity. rv_norm. reflexivity.
+Qed.
+
+Lemma Rinv_init c : Rinv (init c).
+Proof.
+  unfold Rinv, RinvS. cbn. repeat split; try reflexivity; try (constructor; fail); intros; try contradiction; discriminate.
+Qed.
+
+Theorem Rinv_run c ops : Rinv (run c ops).
+Proof. apply run_invariant; [apply Rinv_init|intros s o; apply Rinv_step]. Qed.
+
+(** ** Statements over the full trace *)
+Lemma rfe_cons e tr : recv_finished_events (e :: tr) = recv_finished_events [e] ++ recv_finished_events tr.
+Proof. change (e :: tr) with ([e] ++ tr). apply flat_map_app. Qed.
+Lemma pop_cons e tr : pop_events (e :: tr) = pop_events [e] ++ pop_events tr.
+Proof. change (e :: tr) with ([e] ++ tr). apply flat_map_app. Qed.
+
+Lemma rfe_filter tr : recv_finished_events (filter loud tr) = recv_finished_events tr.
+Proof.
+  induction tr as [|e tr IH]; [reflexivity|]. cbn [filter]. rewrite (rfe_cons e tr).
+  destruct (loud e) eqn:L.
+  - rewrite rfe_cons, IH. reflexivity.
+  - rewrite IH. destruct e as [sg args| | | |]; try destruct sg; try discriminate L; reflexivity.
+Qed.
+
+Lemma pop_filter tr : pop_events (filter loud tr) = pop_events tr.
+Proof.
+  induction tr as [|e tr IH]; [reflexivity|]. cbn [filter]. rewrite (pop_cons e tr).
+  destruct (loud e) eqn:L.
+  - rewrite pop_cons, IH. reflexivity.
+  - rewrite IH. destruct e as [sg args| | | |]; try destruct sg; try discriminate L; reflexivity.
+Qed.
+
+Lemma rxmap_filter dl tr : forall st,
+  fold_left (rxmap_step dl) (filter loud tr) st = fold_left (rxmap_step dl) tr st.
+Proof.
+  induction tr as [|e tr IH]; intros st; [reflexivity|]. cbn [filter fold_left].
+  destruct (loud e) eqn:L; cbn [fold_left]; rewrite IH; [reflexivity|].
+  destruct e as [sg args| | | |]; try destruct sg; try discriminate L; reflexivity.
+Qed.
+
+Lemma pop_events_in id d tr : In (EPop id d) tr <-> In (id, d) (pop_events tr).
+Proof.
+  unfold pop_events. rewrite in_flat_map. split.
+  - intros H. exists (EPop id d). split; [exact H|left; reflexivity].
+  - intros [e [H1 H2]]. destruct e; try contradiction. destruct H2 as [[= -> ->]|[]]. exact H1.
+Qed.
+
+Section Receiver.
+  Variable c : cfg.
+  Variable ops : list op.
+  Let s := run c ops.
+
+  (** The "receive finished" signals are exactly the specified deliveries, in order. *)
+  Theorem recv_finished_spec :
+    recv_finished_events (trace s) = map dlen (deliver_spec (handled s)).
+  Proof.
+    destruct (Rinv_run c ops) as (_ & _ & H & _). fold s in H.
+    unfold rv, lt in H. cbn [v_lt snd] in H. rewrite rfe_filter in H. exact H.
+  Qed.
+
+  (** The session flag and the transfer being received are the specified ones. *)
+  Theorem rx_state_spec :
+    in_sess s = sp_sess (rx_spec (handled s)) /\ rx_tmp s = sp_cur (rx_spec (handled s)).
+  Proof. destruct (Rinv_run c ops) as (H1 & H2 & _). split; [exact H1|exact H2]. Qed.
+
+  (** What is stored is what was delivered minus what was popped. *)
+  Theorem rx_map_exact : rx_map s = rxmap_spec (trace s) (deliver_spec (handled s)).
+  Proof.
+    destruct (Rinv_run c ops) as (_ & _ & _ & _ & H & _). fold s in H.
+    unfold rv, lt in H. cbn [v_lt v_map fst snd] in H. rewrite rxmap_filter in H.
+    unfold rxmap_spec, deliver_spec. unfold sp_out in H. rewrite H. reflexivity.
+  Qed.
+
+  Theorem rx_map_delivered id d :
+    dict_get id (rx_map s) = Some d -> In (id, d) (deliver_spec (handled s)).
+  Proof. destruct (Rinv_run c ops) as (_ & _ & _ & _ & _ & H & _). apply H. Qed.
+
+  Theorem rx_map_nodup : NoDup (map fst (rx_map s)).
+  Proof. destruct (Rinv_run c ops) as (_ & _ & _ & _ & _ & _ & H). exact H. Qed.
+
+  (** Every pop returned a delivered bundle. *)
+  Theorem pop_delivered id d :
+    In (EPop id d) (trace s) -> In (id, d) (deliver_spec (handled s)).
+  Proof.
+    destruct (Rinv_run c ops) as (_ & _ & _ & H & _). fold s in H.
+    unfold rv, lt in H. cbn [v_lt snd] in H. rewrite pop_filter in H.
+    intros Hin. apply H. apply pop_events_in, Hin.
+  Qed.
+
+  (** A pop removes the bundle: popping the same id again at once raises KeyError. *)
+  Theorem pop_removes id : closed s = false -> dict_get id (rx_map (step s (OPop id))) = None.
+  Proof.
+    intros Cl. unfold step. rewrite Cl.
+    destruct (dict_get id (rx_map s)) as [data|] eqn:G.
+    - change (dict_get id (dict_del id (rx_map s)) = None).
+      rewrite dict_get_del by apply rx_map_nodup. rewrite N.eqb_refl. reflexivity.
+    - exact G.
+  Qed.
+
+  Theorem pop_twice id : closed s = false ->
+    trace (step (step s (OPop id)) (OPop id)) = trace (step s (OPop id)) ++ [EExc EX_KEY].
+  Proof.
+    intros Cl. pose proof (pop_removes id Cl) as G.
+    assert (Cl' : closed (step s (OPop id)) = false).
+    { unfold step. rewrite Cl. destruct (dict_get id (rx_map s)); exact Cl. }
+    generalize dependent (step s (OPop id)). intros s1 G Cl'.
+    unfold step. rewrite Cl', G. reflexivity.
+  Qed.
+End Receiver.
+
+(** At the moment a transfer is delivered the store maps its id to its data. *)
+Lemma delivery_stored fl xid ext data s acc :
+  in_sess s = true -> rx_accept (rx_tmp s) fl xid = Some acc -> has_end fl = true ->
+  dict_get xid (rx_map (fst (recv_frame (FMsg (MXferSeg fl xid ext data)) s))) = Some (acc ++ data).
+Proof.
+  intros H1 H2 H3.
+  change (dict_get xid (v_map (rv (fst (recv_frame (FMsg (MXferSeg fl xid ext data)) s)))) = Some (acc ++ data)).
+  rewrite rv_recv_frame_msg, rv_handle_seg, H1, H2, H3. cbn [v_map fst snd].
+  rewrite dict_get_set, N.eqb_refl. reflexivity.
+Qed.
+
+(** ** No delivery mixes transfers (C17) *)
+
+Definition open_at (h : list frame) (xid : N) (acc : bytes) : Prop :=
+  exists pre fl0 e0 d0 mid,
+    h = pre ++ FMsg (MXferSeg fl0 xid e0 d0) :: mid /\
+    has_start fl0 = true /\ has_end fl0 = false /\
+    Forall (fun f => is_start f = false) mid /\
+    Forall (fun f => is_end_of xid f = false) mid /\
+    acc = d0 ++ concat (map (contrib xid) mid).
+
+Definition delivered_at (h : list frame) (xid : N) (d : bytes) : Prop :=
+  exists pre fl0 e0 d0 mid post,
+    h = pre ++ FMsg (MXferSeg fl0 xid e0 d0) :: mid ++ post /\
+    has_start fl0 = true /\
+    Forall (fun f => is_start f = false) mid /\
+    d = d0 ++ concat (map (contrib xid) mid) /\
+    ((has_end fl0 = true /\ mid = []) \/
+     (has_end fl0 = false /\
+      exists mid' fle ee de, mid = mid' ++ [FMsg (MXferSeg fle xid ee de)] /\ has_end fle = true /\
+                             Forall (fun f => is_end_of xid f = false) mid')).
+
+Definition NM (h : list frame) : Prop :=
+  let st := rx_spec h in
+  (forall xid acc, snd (fst st) = Some (xid, acc) -> fst (fst st) = true /\ open_at h xid acc) /\
+  (forall xid d, In (xid, d) (snd st) -> delivered_at h xid d).
+
+Lemma delivered_at_snoc h f xid d : delivered_at h xid d -> delivered_at (h ++ [f]) xid d.
+Proof.
+  intros (pre & fl0 & e0 & d0 & mid & post & E & H). exists pre, fl0, e0, d0, mid, (post ++ [f]).
+  split; [|exact H]. rewrite E. rewrite <- !app_assoc. cbn [app]. rewrite <- !app_assoc. reflexivity.
+Qed.
+
+Lemma open_at_snoc h f xid acc :
+  open_at h xid acc -> is_start f = false -> is_end_of xid f = false ->
+  open_at (h ++ [f]) xid (acc ++ contrib xid f).
+Proof.
+  intros (pre & fl0 & e0 & d0 & mid & E & H1 & H2 & H3 & H4 & H5) Hs He.
+  exists pre, fl0, e0, d0, (mid ++ [f]). repeat split; try assumption.
+  - rewrite E, <- app_assoc. reflexivity.
+  - apply Forall_app. split; [exact H3|]. constructor; [exact Hs|constructor].
+  - apply Forall_app. split; [exact H4|]. constructor; [exact He|constructor].
+  - rewrite H5, map_app, concat_app. cbn [map concat]. rewrite app_nil_r, app_assoc. reflexivity.
+Qed.
+
+Lemma open_at_deliver h xid acc fl e d :
+  open_at h xid acc -> has_start fl = false -> has_end fl = true ->
+  delivered_at (h ++ [FMsg (MXferSeg fl xid e d)]) xid (acc ++ d).
+Proof.
+  intros (pre & fl0 & e0 & d0 & mid & E & H1 & H2 & H3 & H4 & H5) Hs He.
+  exists pre, fl0, e0, d0, (mid ++ [FMsg (MXferSeg fl xid e d)]), []. repeat split.
+  - rewrite E, app_nil_r, <- app_assoc. reflexivity.
+  - exact H1.
+  - apply Forall_app. split; [exact H3|]. constructor; [exact Hs|constructor].
+  - rewrite H5, map_app, concat_app. cbn [map concat contrib]. rewrite N.eqb_refl, app_nil_r, app_assoc. reflexivity.
+  - right. split; [exact H2|]. exists mid, fl, e, d. repeat split; assumption.
+Qed.
+
+Lemma NM_all h : NM h.
+Proof.
+  induction h as [|f h IH] using rev_ind.
+  - split; cbn; intros; [discriminate|contradiction].
+  - unfold NM in *. rewrite rx_spec_snoc. destruct (rx_spec h) as [[sess cur] out].
+    cbn [fst snd] in IH. destruct IH as [IH1 IH2].
+    assert (Same : (forall xid acc, cur = Some (xid, acc) -> is_start f = false /\ is_end_of xid f = false /\ contrib xid f = []) ->
+                   (forall xid acc, cur = Some (xid, acc) -> sess = true /\ open_at (h ++ [f]) xid acc) /\
+                   (forall xid d, In (xid, d) out -> delivered_at (h ++ [f]) xid d)).
+    { intros Hq. split.
+      - intros xid acc Hc. destruct (IH1 _ _ Hc) as [Hs Ho]. split; [exact Hs|].
+        destruct (Hq _ _ Hc) as (Q1 & Q2 & Q3). rewrite <- (app_nil_r acc), <- Q3. apply open_at_snoc; assumption.
+      - intros xid d Hin. apply delivered_at_snoc, IH2, Hin. }
+    destruct f as [c|m]; [apply Same; intros; repeat split; reflexivity|].
+    destruct m as [fl xid ext data|fl xid len|r xid| |fl r|ri r|ka smru xmru nid ext];
+      try (apply Same; intros; repeat split; reflexivity).
+    + (* segment *)
+      cbn [rx_spec_step]. destruct sess.
+      2:{ apply Same. intros x a Hc. destruct (IH1 _ _ Hc) as [Hs _]. discriminate Hs. }
+      unfold rx_accept. destruct (has_start fl) eqn:St.
+      * (* START: accepted *)
+        destruct (has_end fl) eqn:En; cbn [fst snd].
+        -- split; [intros; discriminate|]. intros x d Hin. apply in_app_or in Hin.
+           destruct Hin as [Hin|[[= <- <-]|[]]]; [apply delivered_at_snoc, IH2, Hin|].
+           exists h, fl, ext, data, [], [].
+           split; [reflexivity|]. split; [exact St|]. split; [constructor|].
+           split; [cbn; rewrite app_nil_r; reflexivity|]. left. split; [exact En|reflexivity].
+        -- split; [|intros x d Hin; apply delivered_at_snoc, IH2, Hin].
+           intros x a [= <- <-]. split; [reflexivity|].
+           exists h, fl, ext, data, [].
+           split; [reflexivity|]. split; [exact St|]. split; [exact En|]. split; [constructor|].
+           split; [constructor|]. cbn. rewrite app_nil_r. reflexivity.
+      * destruct cur as [[cid acc]|].
+        2:{ apply Same. intros; discriminate. }
+        destruct (cid =? xid) eqn:Ec.
+        -- apply N.eqb_eq in Ec. subst cid. destruct (IH1 _ _ eq_refl) as [_ Ho].
+           destruct (has_end fl) eqn:En; cbn [fst snd].
+           ++ split; [intros; discriminate|]. intros x d Hin. apply in_app_or in Hin.
+              destruct Hin as [Hin|[[= <- <-]|[]]]; [apply delivered_at_snoc, IH2, Hin|].
+              apply open_at_deliver; assumption.
+           ++ split; [|intros x d Hin; apply delivered_at_snoc, IH2, Hin].
+              intros x a [= <- <-]. split; [reflexivity|].
+              replace data with (contrib xid (FMsg (MXferSeg fl xid ext data))) at 2
+                by (cbn [contrib]; rewrite N.eqb_refl; reflexivity).
+              apply open_at_snoc; [exact Ho|exact St|]. cbn [is_end_of]. rewrite En. reflexivity.
+        -- apply Same. intros x a [= -> ->]. cbn [is_start is_end_of contrib].
+           rewrite St, (N.eqb_sym xid x), Ec, andb_false_r. repeat split; reflexivity.
+    + (* SESS_INIT *)
+      cbn [rx_spec_step fst snd]. split.
+      * intros x a Hc. split; [reflexivity|]. destruct (IH1 _ _ Hc) as [_ Ho].
+        replace a with (a ++ contrib x (FMsg (MSessInit ka smru xmru nid ext))) by (cbn [contrib]; apply app_nil_r).
+        apply open_at_snoc; [exact Ho|reflexivity|reflexivity].
+      * intros x d Hin. apply delivered_at_snoc, IH2, Hin.
+Qed.
+
+Theorem no_mixed_delivery h xid d : In (xid, d) (deliver_spec h) -> delivered_at h xid d.
+Proof. intros H. apply (proj2 (NM_all h)), H. Qed.
